@@ -406,6 +406,7 @@ import closed  # noqa: E402,F401  (registers the closed-term facts)
 import fieldmon  # noqa: E402,F401
 import hashmon  # noqa: E402,F401
 import codecmon  # noqa: E402,F401
+import ecdsamon  # noqa: E402,F401
 
 
 # ------------------------------------------------------------------------------------------
